@@ -228,3 +228,57 @@ theorem lmo_accept (x : ℕ) (a : ℚ) (v : ℤ) (hx2 : 2 ≤ x) (hx : x < 2 ^ 6
   rw [if_neg (by omega), Int.tdiv_eq_ediv_of_nonneg (by positivity)]
 
 end Pc
+
+namespace Pc
+
+/-! ### maxx_default -/
+
+/-- every `x ≤ 10^31` passes `x ≤ get_max_x(alpha_y)` when `alpha_y ≥ 1`, `≥ 110` above `2^93 − 2^54`, and `pow` is
+    within the envelope -/
+theorem le_maxX_default {x : ℕ} {ay : ℚ} {m : ℤ} (hx : x ≤ 10 ^ 31) (hay1 : 1 ≤ ay) (hm : MaxXNear ay m)
+    (h110 : DefaultAlphaYAtLeast110 x ay) : (x : ℤ) ≤ m := by
+  obtain ⟨hm0, _, hm3⟩ := hm
+  by_contra hlt
+  push Not at hlt
+  have hm1 : m + 1 ≤ (x : ℤ) := hlt
+  have hmq : (m : ℚ) + 1 ≤ (x : ℚ) := by exact_mod_cast hm1
+  have hm0q : (0 : ℚ) ≤ (m : ℚ) + 1 := by
+    have : (0 : ℚ) ≤ (m : ℚ) := by exact_mod_cast hm0
+    linarith
+  have hsq : ((m : ℚ) + 1) ^ 2 ≤ (x : ℚ) ^ 2 := pow_le_pow_left₀ hm0q hmq 2
+  by_cases hsmall : x ≤ 2 ^ 93 - 2 ^ 54
+  · have hxq : (x : ℚ) ≤ 2 ^ 93 - 2 ^ 54 := by
+      have : (x : ℚ) ≤ ((2 ^ 93 - 2 ^ 54 : ℕ) : ℚ) := by exact_mod_cast hsmall
+      rw [Nat.cast_sub (by norm_num)] at this
+      push_cast at this; exact this
+    have h1 : (x : ℚ) ^ 2 ≤ (2 ^ 93 - 2 ^ 54) ^ 2 := pow_le_pow_left₀ (by positivity) hxq 2
+    have h2 : ((2 : ℚ) ^ 62 * 1) ^ 3 ≤ (2 ^ 62 * ay) ^ 3 :=
+      pow_le_pow_left₀ (by positivity) (mul_le_mul_of_nonneg_left hay1 (by positivity)) 3
+    have h3 : ((2 : ℚ) ^ 62 * 1) ^ 3 * (1 - relEps) ≤ (2 ^ 62 * ay) ^ 3 * (1 - relEps) :=
+      mul_le_mul_of_nonneg_right h2 one_sub_relEps_pos.le
+    have h4 : ((2 : ℚ) ^ 93 - 2 ^ 54) ^ 2 < ((2 : ℚ) ^ 62 * 1) ^ 3 * (1 - relEps) := by
+      rw [relEps_eq]; norm_num
+    linarith
+  · push Not at hsmall
+    have ha := h110 hsmall
+    have hxq : (x : ℚ) ≤ 10 ^ 31 := by exact_mod_cast hx
+    have h1 : (x : ℚ) ^ 2 ≤ (10 ^ 31) ^ 2 := pow_le_pow_left₀ (by positivity) hxq 2
+    have h2 : ((2 : ℚ) ^ 62 * 110) ^ 3 ≤ (2 ^ 62 * ay) ^ 3 :=
+      pow_le_pow_left₀ (by positivity) (mul_le_mul_of_nonneg_left ha (by positivity)) 3
+    have h3 : ((2 : ℚ) ^ 62 * 110) ^ 3 * (1 - relEps) ≤ (2 ^ 62 * ay) ^ 3 * (1 - relEps) :=
+      mul_le_mul_of_nonneg_right h2 one_sub_relEps_pos.le
+    have h4 : ((10 : ℚ) ^ 31) ^ 2 < ((2 : ℚ) ^ 62 * 110) ^ 3 * (1 - relEps) := by
+      rw [relEps_eq]; norm_num
+    linarith
+
+end Pc
+
+namespace Pc
+
+/-! ### roots of 10^31 (used by the non-vacuity examples) -/
+theorem iroot3_1e31 : irootN 3 (10 ^ 31) = 21544346900 := irootN_eq_of (by norm_num) (by norm_num) (by norm_num)
+theorem iroot6_1e31 : irootN 6 (10 ^ 31) = 146779 := irootN_eq_of (by norm_num) (by norm_num) (by norm_num)
+theorem isqrt_1e31 : isqrtN (10 ^ 31) = 3162277660168379 := by
+  rw [isqrtN_eq]; symm; rw [Nat.eq_sqrt]; norm_num
+
+end Pc
